@@ -28,7 +28,7 @@ def stable_key(name):
 
 def load_contracts(src):
     import contracts.streams, contracts.binary, contracts.classes, contracts.prims, contracts.oracles, contracts.tables, contracts.bitstream  # noqa
-    for mod in ('wrappers', 'adapters', 'transforms', 'delimited', 'intlemmas', 'conditionals', 'lazy', 'exprs', 'containers', 'codegen', 'ksy', 'lemmas', 'entry'):
+    for mod in ('wrappers', 'adapters', 'transforms', 'delimited', 'intlemmas', 'conditionals', 'simple', 'lazy', 'exprs', 'containers', 'codegen', 'ksy', 'lemmas', 'entry'):
         try:
             __import__('contracts.' + mod)
         except ModuleNotFoundError as e:
@@ -126,6 +126,7 @@ def main(argv=None):
     ap.add_argument('--timeout', type=int, default=None)
     ap.add_argument('--verbose', '-v', action='store_true')
     a = ap.parse_args(argv)
+    os.environ['VERIF_TIER'] = a.tier          # contracts size their parameter enumerations by tier
     pid = a.property
     seed = int(os.environ.get('VERIF_SEED', '0') or 0)
     t0 = time.time()
@@ -315,7 +316,17 @@ def conclude(pid, P, tier, seed, a, t0, src, results, oor, stats, functions, ext
     _cache = {}
 
     def native(r, vals):
-        """-> (confirmed, detail) using the function's native oracle"""
+        """-> (confirmed, detail); one confirmed input per function is enough, and the directed searches of one run share a budget"""
+        if r.qual in _cache.get('confirmed', {}):
+            return True, _cache['confirmed'][r.qual]
+        if time.time() - _cache.setdefault('t0', time.time()) > (150 if tier == 'quick' else 900) and vals is None:
+            return None, 'native search budget of this run used up by earlier failed obligations'
+        ok, detail = native_(r, vals)
+        if ok:
+            _cache.setdefault('confirmed', {})[r.qual] = detail
+        return ok, detail
+
+    def native_(r, vals):
         nonlocal C
         o = ORACLES.get(r.qual)
         if C is None:
@@ -355,7 +366,11 @@ def conclude(pid, P, tier, seed, a, t0, src, results, oor, stats, functions, ext
             if c is None or c.setup is None or not r.stream_model.startswith('bytesio'):
                 return None, 'no native oracle for %s under the %s model' % (r.qual, r.stream_model)
             try:
-                found, stats = nativecheck.search(c, src, C, rng, 400 if tier == 'quick' else 5000)
+                vname = r.stream_model.split(',', 1)[1] if ',' in r.stream_model else None
+                if vname and vname.endswith(',generic'):
+                    vname = vname[:-8]
+                prefer = next((v for v in c.variants if v is not None and str(v) == vname), None)
+                found, stats = nativecheck.search(c, src, C, rng, 400 if tier == 'quick' else 5000, prefer=prefer)
             except Exception as e:
                 return None, 'native contract evaluation failed: %r' % (e,)
             if found:
